@@ -81,6 +81,8 @@ static void schedule(int self) {
       sem_post(&g_done);
       return;
     }
+    // (the "lock wait" hook means: spinning until the byte at addr reads 0 - the contract of the test-and-set lock
+    // the hooks were written for; a lock that waits on something else must adapt its hooks, see DESIGN 2.2)
     die(2, "deadlock: no thread is enabled but not all threads have finished");
   }
   unsigned c = 0;
@@ -145,8 +147,9 @@ static const char* kAOpName[5] = {"Malloc(24)", "Malloc(48)", "Realloc(own24,24,
 struct Program {
   int nthreads;
   std::vector<std::vector<int>> ops;  // per thread
+  int warm = 0;                        // lock acquisitions (Malloc(8) calls) on the shared pool before the threads start
   std::string name() const {
-    std::string s;
+    std::string s = warm ? "after " + std::to_string(warm) + " earlier Malloc(8) calls on the pool: " : "";
     for (int t = 0; t < nthreads; t++) {
       s += "T" + std::to_string(t) + "[";
       for (size_t i = 0; i < ops[t].size(); i++) s += std::string(i ? "," : "") + kAOpName[ops[t][i]];
@@ -168,6 +171,11 @@ static void run_alloc_program(const Program& P) {
   };
   std::vector<Blk> pre;
   size_t model_size = 0;
+  // the N-th use of the lock: counters inside a lock implementation (tickets, sequence numbers) wrap at 2^8 / 2^16
+  for (int i = 0; i < P.warm; i++) {
+    if (!pool.Malloc(8)) break;
+    model_size += 8;
+  }
   for (int t = 0; t < P.nthreads; t++) {
     char* p = (char*)pool.Malloc(24);
     std::memset(p, 0x40 + t, 24);
@@ -437,6 +445,7 @@ struct Explorer {
   };
   std::vector<Fail> fails;
   size_t max_points = 0;
+  int timeouts = 0;
 
   sch::ExecResult run(const std::vector<uint8_t>& prefix) {
     // the result page is shared between this process and the execution it forks, and with nobody else:
@@ -464,7 +473,27 @@ struct Explorer {
       _exit(0);
     }
     int st = 0;
-    waitpid(p, &st, 0);
+    {
+      // an execution takes milliseconds; one that does not end (a thread that waits in real time without passing a
+      // scheduling point while the scheduler keeps every other thread parked) is killed and reported
+      static const double limit = getenv("VERIF_EXEC_TIMEOUT_S") ? atof(getenv("VERIF_EXEC_TIMEOUT_S")) : 10.0;
+      double waited = 0;
+      for (;;) {
+        pid_t q = waitpid(p, &st, WNOHANG);
+        if (q == p) break;
+        if (waited > limit) {
+          kill(p, SIGKILL);
+          waitpid(p, &st, 0);
+          sch::ExecResult r = *sch::g_res;
+          r.status = 3;
+          snprintf(r.msg, sizeof r.msg, "the execution did not finish within %.0f s: a thread waits without passing a scheduling point while the others are parked (livelock under this schedule)", limit);
+          timeouts++;
+          return r;
+        }
+        usleep(waited < 0.05 ? 200 : 5000);
+        waited += waited < 0.05 ? 0.0002 : 0.005;
+      }
+    }
     sch::ExecResult r = *sch::g_res;
     if (!(WIFEXITED(st) && WEXITSTATUS(st) == 0)) {
       r.status = 5;
@@ -477,6 +506,7 @@ struct Explorer {
   }
   bool no_recurse = false;
   void explore(const std::vector<uint8_t>& prefix) {
+    if (timeouts >= 2) return;  // every further schedule of this subtree would cost the time limit again
     sch::ExecResult x = run(prefix);
     nexec++;
     if (getenv("VERIF_SCHED_DEBUG")) {
@@ -570,6 +600,18 @@ int main(int argc, char** argv) {
           }
           progs.push_back(Program{2, {{a, b}, {c, d}}});
         }
+  // the same shapes after 2^8 / 2^16 (+-2) earlier acquisitions of the pool's lock
+  {
+    static const int kWarm[10] = {253, 254, 255, 256, 257, 65533, 65534, 65535, 65536, 65537};
+    for (int w : kWarm) {
+      // the pre-phase of a program takes one more acquisition per thread (the 24-byte block each thread owns)
+      Program a{2, {{M24}, {M24}}}, b{2, {{M24, R40}, {M48, M24}}}, c{2, {{RN, M24}, {R200, M24}}};
+      a.warm = b.warm = c.warm = w;
+      progs.push_back(a);
+      progs.push_back(b);
+      if (!quick) progs.push_back(c);
+    }
+  }
   std::vector<Program> progs3;
   for (int a = 0; a < NAOP; a++)
     for (int b = a; b < NAOP; b++)
@@ -600,7 +642,7 @@ int main(int argc, char** argv) {
   fc.count = progs.size();
   fc.chunk = 1;
   fc.group = "SC";
-  fc.rule = "scenario C: one shared MemoryPoolAllocator (chunk capacity 64, SONIC_LOCKED_ALLOCATOR), 2 threads x 2 operations from {Malloc(24), Malloc(48), Realloc(own,24,40), Realloc(own,24,200), Realloc(null,0,24)}; for every program ALL schedules over the hooked points (lock try, lock wait, shared accesses, operation boundaries) with at most " +
+  fc.rule = "scenario C: one shared MemoryPoolAllocator (chunk capacity 64, SONIC_LOCKED_ALLOCATOR), 2 threads x 2 operations from {Malloc(24), Malloc(48), Realloc(own,24,40), Realloc(own,24,200), Realloc(null,0,24)}, plus shapes that start after 253..257 and 65533..65537 earlier acquisitions of the pool's lock (the N-th use: counters of a lock implementation wrap at 2^8 / 2^16); for every program ALL schedules over the hooked points (lock try, lock wait, shared accesses, operation boundaries) with at most " +
             std::to_string(bound) + " preemptions; oracle after join: blocks disjoint, aligned, contents intact, Size() consistent, no deadlock/livelock; evaluations = work items (a program's default schedule or one first-level subtree of its schedule tree); complete schedules executed are reported as states/transitions";
   fc3.name = "SC_alloc_3threads_x1op";
   fc3.count = progs3.size();
